@@ -90,10 +90,19 @@ def load_tu(root, path):
             n["_file"] = os.path.relpath(os.path.abspath(cur_file), root)
             funcs.append(n)
     res = {"file": rel, "functions": funcs}
+    if os.environ.get("VERIF_SELFTEST"):
+        return res              # scratch variants never populate the cache
     tmp = cp + f".{os.getpid()}.tmp"
     with open(tmp, "w") as f:
         json.dump(res, f)
     os.replace(tmp, cp)
+    try:                        # bounded: keep the 48 most recent dumps
+        ents = sorted((os.path.join(CACHE, x) for x in os.listdir(CACHE) if x.endswith(".json")),
+                      key=os.path.getmtime)
+        for old in ents[:-48]:
+            os.unlink(old)
+    except OSError:
+        pass
     return res
 
 
